@@ -209,10 +209,33 @@ class U:
         return kinds
 
 
-def gen_universe(r):
+DERIVE = "#[derive(Debug, Clone, PartialEq, ::serde::Serialize, ::serde::Deserialize, ::schemars::JsonSchema)]"
+
+# one directed type per universe (rotating), so that every feature below is present in every run of >= 8 universes
+FORCED = [
+    ("ForcedUntaggedLongFirst", DERIVE + "\n#[serde(untagged)]\npub enum ForcedUntaggedLongFirst {\n    Triple(u8, u8, u8),\n    Pair(u8, bool),\n    Text(String),\n}\n", "enum_untagged"),
+    ("ForcedUntaggedShortFirst", DERIVE + "\n#[serde(untagged)]\npub enum ForcedUntaggedShortFirst {\n    Pair(i32, i32),\n    Quad(i32, i32, i32, bool),\n    Flag(bool),\n}\n", "enum_untagged"),
+    ("ForcedMapDefault", DERIVE + "\npub struct ForcedMapDefault {\n    pub id: u32,\n    #[serde(default = \"forced_map_default\")]\n    pub labels: ::std::collections::BTreeMap<String, String>,\n}\npub fn forced_map_default() -> ::std::collections::BTreeMap<String, String> { [(\"tier\".to_string(), \"free\".to_string())].into_iter().collect() }\n", "struct"),
+    ("ForcedAdjacentRenamed", DERIVE + "\n#[serde(tag = \"t\", content = \"c\", rename_all = \"kebab-case\")]\npub enum ForcedAdjacentRenamed {\n    UnitOne,\n    #[serde(rename_all = \"camelCase\")]\n    WithFields { first_field: Option<(u8, String)>, second_field: Vec<u16> },\n    NewType(Option<u32>),\n}\n", "enum_adjacent"),
+    ("ForcedNestedOption", DERIVE + "\npub struct ForcedNestedOption {\n    pub a: Option<Vec<Option<u8>>>,\n    #[serde(default, skip_serializing_if = \"Vec::is_empty\")]\n    pub b: Vec<(String,)>,\n    pub c: [Option<bool>; 2],\n}\n", "struct"),
+    ("ForcedInternalNewtype", DERIVE + "\n#[serde(tag = \"kind\", deny_unknown_fields)]\npub enum ForcedInternalNewtype {\n    A { x: u8 },\n    B,\n    #[serde(rename = \"see\")]\n    C { #[serde(default)] y: Option<String> },\n}\n", "enum_internal"),
+    ("ForcedTupleStructs", DERIVE + "\npub struct ForcedTupleStructs(pub (u8,), pub Box<ForcedUnit>, pub Option<Box<ForcedTupleStructs>>);\n" + DERIVE + "\npub struct ForcedUnit;\n", "tuple_struct"),
+    ("ForcedFloatMaps", DERIVE + "\n#[serde(rename_all = \"SCREAMING-KEBAB-CASE\")]\npub struct ForcedFloatMaps {\n    pub float_map: ::std::collections::HashMap<String, f32>,\n    pub set_of: ::std::collections::BTreeSet<i64>,\n    #[serde(rename = \"type\")]\n    pub type_: u64,\n}\n", "struct"),
+]
+
+
+def gen_universe(r, index=None):
     """Returns (rust source of the type definitions, root type names, kinds)."""
     u = U(r)
     kinds = u.build()
     src = "\n".join(s for _, s in u.defs) + "\n" + "".join(u.helpers)
     roots = list(u.all_names)
+    if index is not None:
+        name, fsrc, kind = FORCED[index % len(FORCED)]
+        src += "\n" + fsrc
+        roots.append(name)
+        kinds[name] = kind
+        if name == "ForcedTupleStructs":
+            roots.append("ForcedUnit")
+            kinds["ForcedUnit"] = "unit_struct"
     return src, roots, kinds
